@@ -4,7 +4,7 @@
 //   (b) every value token x replacement menu {-1,0,1,2,7, huge: 1000000000,2^30,ceil(2^32/3),2000000000,2^31-1, overflow: 2^31,2^32,2^32+1,
 //       1e400,<10 kB of digits>, NA,x,-0.0,1.5,<deleted>},
 //   (c) every line deleted / duplicated / swapped with the next one, one extra value appended to every value line,
-//   (d) (thorough) every pair of the first 8 integer header tokens x {-1,0,2,NA,<the five huge values>} x {-1,0,2,2000000000,NA},
+//   (d) (thorough) every pair of the first 8 integer header tokens x {-1,0,2,NA,<the five huge values>} x {0,2,2000000000},
 // plus CSV files (Db and Polygons drivers, WKT), LAS well files, legacy keyword files and every grid exchange format that has a
 // reader (Zycor, IfpEn, F2G as text; BMP as binary: every prefix, every header field x integer menu, every header byte x {00,ff}).
 // Each faulty file is loaded in a forked child under AddressSanitizer. Allowed outcomes: the loader reports failure, or it
@@ -134,7 +134,7 @@ static const std::vector<std::pair<std::string, std::string>>& repl_menu()
     {"NA", "NA"}, {"x", "text"}, {"-0.0", "zero"}, {"1.5", "float"}, {"", "deleted"}};
   return v;
 }
-static const std::vector<std::string>& pair_menu() { static const std::vector<std::string> v = {"-1", "0", "2", "2000000000", "NA"}; return v; }
+static const std::vector<std::string>& pair_menu() { static const std::vector<std::string> v = {"0", "2", "2000000000"}; return v; }   // second token of a pair
 // first token of a pair: the whole "huge" set
 static const std::vector<std::string>& pair_menu1() { static const std::vector<std::string> v = {"-1", "0", "2", "NA", "1000000000", "1073741824", "1431655766", "2000000000", "2147483647"}; return v; }
 
@@ -157,10 +157,10 @@ struct Plan
   bool thorough;
   size_t nPrefix, nGarbage, nTok, nLine, nPair;
   std::vector<int> intToks;
-  Plan(const Parsed& p, bool th) : P(&p), thorough(th)
+  Plan(const Parsed& p, bool th, bool garbage = true) : P(&p), thorough(th)
   {
     nPrefix = p.text.size();                     // k = 0 .. size-1
-    nGarbage = th ? p.text.size() : 0;
+    nGarbage = th && garbage ? p.text.size() : 0;
     nTok = p.toks.size() * repl_menu().size();
     nLine = p.lines.size() * 4;
     for (size_t i = 0; i < p.toks.size() && intToks.size() < 8; i++) if (p.toks[i].isInt && p.toks[i].title != "class_tag") intToks.push_back((int)i);
@@ -526,10 +526,10 @@ static void fault_run(Ctx& C, const std::string& cls, const std::string& textId,
   }
 }
 static void fault_text(Ctx& C, const std::string& cls, const std::string& textId, const std::string& text, bool hasTag,
-                       const std::function<int(const std::string&, int)>& loader, size_t& counter)
+                       const std::function<int(const std::string&, int)>& loader, size_t& counter, bool garbage = true)
 {
   Parsed P = parse_text(text, hasTag);
-  Plan plan(P, C.thorough());
+  Plan plan(P, C.thorough(), garbage);
   fault_run(C, cls, textId, text, plan.size(), [&](size_t i, Mut& m) { return plan.make(i, m); }, loader, counter, false);
 }
 
@@ -608,7 +608,7 @@ static void fault_class(Ctx& C, const std::string& cname)
     // stream mode (bulk) for every class; file mode through createFromNF when the class has one
     fault_text(C, cname, tid + "(stream)", text, true, [&](const std::string& c, int wfd) { return run_nf(*def, false, c, wfd); }, counter);
     if (def->fromNF && (C.thorough() || it == 0))
-      fault_text(C, cname, tid + "(file)", text, true, [&](const std::string& c, int wfd) { return run_nf(*def, true, c, wfd); }, counter);
+      fault_text(C, cname, tid + "(file)", text, true, [&](const std::string& c, int wfd) { return run_nf(*def, true, c, wfd); }, counter, false);   // garbage-completed prefixes: stream driver only
   }
 }
 
